@@ -124,7 +124,11 @@ def main():
             got.append(lc.value if lc is not None else o)
         want = [int(x) for x in flat(out["ref"][1])]
         if len(got) != len(want):
+            if spec.get("shape"):
+                yes("the operation returns %d values where Python gives %d on inputs %s" % (len(got), len(want), spec["inputs"]))
             no("shape mismatch %s vs %s" % (got, want))
+        if spec.get("shape"):
+            no("shapes agree")
         for i, (g, w) in enumerate(zip(got, want)):
             if g != w:
                 yes("leaf %d: traced value %s but Python gives %s on inputs %s" % (i, g, w, spec["inputs"]))
